@@ -616,6 +616,9 @@ class Nest:
         b, tr = self.b, self.tr
         leaf_bbs = set(leaf_bbs)
         o = tr.origin(ret_op or {'k': 'move', 'l': 0, 'p': []})
+        if o['o'] == 'rvalue' and not o['p'] and o['rv'].get('r') == 'aggr' and o['rv'].get('agg') == 'adt' and \
+                o['rv'].get('variant') in ('Some', 'Ok') and len(o['rv']['ops']) == 1 and 'l' in o['rv']['ops'][0]:
+            o = tr.origin(o['rv']['ops'][0])        # `Some(sum)` / `Ok(sum)`: the reduction is the payload
         if o['o'] != 'local' or o['p']:
             return False, 'the result is not an accumulator variable (%s)' % o['o'], None
         acc = o['l']
